@@ -353,6 +353,14 @@ Fixpoint args_insert (k : bytes) (v : shape) (l : list (bytes * shape)) : list (
 Definition merge_in_shape (types : list shape) (s : shape) : list shape :=
   if existsb (fun t => equivalent t s) types then types else types ++ [s].
 
+(* derive_not_shape: a candidate (possibly itself a set of candidates) that may be a boolean *)
+Fixpoint may_be_boolean (s : shape) : bool :=
+  match s with
+  | SBool | SHole _ | SAny => true
+  | SNarrowed l => existsb may_be_boolean l
+  | _ => false
+  end.
+
 Definition is_cmp_op (o : op) : bool :=
   match o with
   | Equal | NotEqual | GT | LT | GTEqual | LTEqual | REMatch | NotREMatch | IN | IS => true
@@ -362,7 +370,7 @@ Definition is_cmp_op (o : op) : bool :=
 (* resolve_tuple_field *)
 Definition resolve_tuple_field (fs : list (bytes * shape)) (accessor : expr) : shape :=
   match accessor with
-  | ESym k | EStr k => match st_get k fs with Some s => s | None => SErr EType end
+  | ESym k | EStr k => match st_get k (rev fs) with Some s => s | None => SErr EType end
   | _ => SAny
   end.
 
@@ -391,6 +399,18 @@ Section DeriveLoops.
     | (k, e1) :: fs' =>
       let '(s1, st1) := dv e1 st in let '(r, st2) := derive_fields fs' st1 in ((k, s1) :: r, st2)
     end.
+  (* SelectDef::derive_shape: the field values, then the default, merged with merge_in_shape *)
+  Variable merge : list shape -> shape -> list shape.
+  Fixpoint derive_select (dflt : option expr) (arms : list (bytes * expr)) (types : list shape) (st : symtab)
+    : shape * symtab :=
+    match arms with
+    | [] =>
+      match dflt with
+      | Some d => let '(s1, st1) := dv d st in (SNarrowed (merge types s1), st1)
+      | None => (SNarrowed types, st)
+      end
+    | (_, ae) :: arms' => let '(s1, st1) := dv ae st in derive_select dflt arms' (merge types s1) st1
+    end.
 End DeriveLoops.
 
 Fixpoint derive_f (fuel : nat) (e : expr) (st : symtab) {struct fuel} : shape * symtab :=
@@ -414,8 +434,7 @@ Fixpoint derive_f (fuel : nat) (e : expr) (st : symtab) {struct fuel} : shape * 
       let '(s1, st1) := dv e1 st in
       (match s1 with
        | SBool | SHole _ | SAny => SBool
-       | SNarrowed ts => if existsb (fun t => match t with SBool => true | _ => false end) ts
-                         then SBool else SErr EType
+       | SNarrowed ts => if existsb may_be_boolean ts then SBool else SErr EType
        | _ => SErr EType
        end, st1)
     | EGroup e1 => dv e1 st
@@ -499,8 +518,9 @@ Fixpoint derive_f (fuel : nat) (e : expr) (st : symtab) {struct fuel} : shape * 
                let '(actual, st') := dv ae st in
                match st_get an fargs with
                | Some declared =>
-                 let '(n, st'') := narrow_st st' declared actual in
-                 if is_err n then (n, st'') else go order' args' st''
+                 (* narrowed on a copy of the table (7412af6): the caller's bindings are not touched *)
+                 let '(n, _) := narrow_st st' declared actual in
+                 if is_err n then (n, st') else go order' args' st'
                | None => go order' args' st'
                end
              | _, _ => (ret, st)
@@ -522,26 +542,21 @@ Fixpoint derive_f (fuel : nat) (e : expr) (st : symtab) {struct fuel} : shape * 
       | _ => (SErr EType, st1)
       end
     | EFunc ps body =>
-      (* argdefs collected into a map, then the outer table is appended over it: an outer binding
-         of the same name hides the parameter *)
-      let inner := st ++ map (fun p => (p, SHole p)) ps in
+      (* the outer table is cloned and each parameter inserted: parameters shadow outer names *)
+      let inner := fold_left (fun acc p => st_set p (SHole p) acc) ps st in
       let '(bs, inner') := dv body inner in
       let table := fold_left (fun acc p => match st_get p inner' with
                                            | Some s => args_insert p s acc
                                            | None => acc end) ps [] in
       (SFunc ps table bs, st)
-    | ESelect _ _ arms =>
-      (fix go (arms : list (bytes * expr)) (types : list shape) (st : symtab) : shape * symtab :=
-         match arms with
-         | [] => (SNarrowed types, st)
-         | (_, ae) :: arms' => let '(s1, st1) := dv ae st in go arms' (merge_in_shape types s1) st1
-         end) arms [] st
+    | ESelect _ dflt arms => derive_select dv merge_in_shape dflt arms [] st
     | EMap fe te =>
       let '(ts, st1) := dv te st in
       let '(fs, st2) := dv fe st1 in
       (match ts with
-       | SList _ | SListAny | SHole _ | SAny =>
+       | SList _ | SListAny =>
          match fs with SFunc _ _ ret => SList [ret] | _ => SListAny end
+       | STuple _ | SStr | SHole _ | SAny | SNarrowed _ => SAny
        | _ => SErr EType
        end, st2)
     | EFilter fe te =>
@@ -549,7 +564,9 @@ Fixpoint derive_f (fuel : nat) (e : expr) (st : symtab) {struct fuel} : shape * 
       let '(_, st2) := dv fe st1 in
       (match ts with
        | SList _ | SListAny => ts
-       | SHole _ | SAny => SListAny
+       | SHole _ | SAny => SAny
+       | SStr => ts
+       | STuple _ | SNarrowed _ => SAny
        | _ => SErr EType
        end, st2)
     | EReduce fe ae te =>
@@ -557,7 +574,7 @@ Fixpoint derive_f (fuel : nat) (e : expr) (st : symtab) {struct fuel} : shape * 
       let '(acc, st2) := dv ae st1 in
       let '(fs, st3) := dv fe st2 in
       match ts with
-      | SList _ | SListAny | SHole _ | SAny =>
+      | SList _ | SListAny | SHole _ | SAny | SNarrowed _ | STuple _ | SStr =>
         match fs with
         | SFunc _ _ ret => let '(n, st4) := narrow_st st3 acc ret in ((if is_err n then acc else n), st4)
         | _ => (acc, st3)
@@ -588,6 +605,11 @@ with dot_f (fuel : nat) (ls : shape) (r : expr) (st : symtab) {struct fuel} : sh
                | SImportR fs => dot_f f (STuple fs) r st
                | SImportU _ => (SAny, st)
                | SErr _ => (ls, st)
+               | STuple _ | SHole _ | SAny | SNarrowed _ =>
+                 match r with
+                 | ECall _ _ | ECopy _ _ => (SAny, st)
+                 | _ => (SErr EType, st)
+                 end
                | _ => (SErr EType, st)
                end
         end in
@@ -626,7 +648,7 @@ with dot_f (fuel : nat) (ls : shape) (r : expr) (st : symtab) {struct fuel} : sh
       end
     | EStr k | ESym k =>
       match ls with
-      | STuple fs => (match st_get k fs with Some s => s | None => SErr EType end, st)
+      | STuple fs => (match st_get k (rev fs) with Some s => s | None => SErr EType end, st)
       | SList _ | SListAny => (SErr EType, st)
       | SHole _ => (SAny, st)
       | SAny | SNarrowed [] => (SAny, st)
@@ -634,7 +656,7 @@ with dot_f (fuel : nat) (ls : shape) (r : expr) (st : symtab) {struct fuel} : sh
         let results := flat_map (fun t => match t with
                                           | STuple fs =>
                                             flat_map (fun '(n, s) => if bytes_eqb n k then [s] else []) fs
-                                          | SHole _ => [SAny]
+                                          | SHole _ | SAny | SNarrowed _ => [SAny]
                                           | _ => [] end) types in
         (one_or_narrowed results, st)
       | _ => fallthrough tt
@@ -648,7 +670,7 @@ with dot_f (fuel : nat) (ls : shape) (r : expr) (st : symtab) {struct fuel} : sh
       | SNarrowed types =>
         let results := flat_map (fun t => match t with
                                           | SList _ | SListAny => [elem_shape t]
-                                          | SHole _ => [SAny]
+                                          | SHole _ | SAny | SNarrowed _ => [SAny]
                                           | _ => [] end) types in
         (one_or_narrowed results, st)
       | _ => fallthrough tt
@@ -1268,7 +1290,7 @@ Section Run.
   (* ---------------------------------------------------------------------------------------- *)
   (* Hole, Narrowed(Any) and the empty Narrowed are top.  A list value inhabits List(ts) when every
      element inhabits one of ts; a tuple value inhabits Tuple(fs) when each of its fields is declared
-     and inhabits the FIRST declaration of that name (what field access resolves to). *)
+     and inhabits the LAST declaration of that name (what field access resolves to since 05372e0). *)
   Fixpoint inhabitsb (v : value) (s : shape) {struct s} : bool :=
     match s with
     | SHole _ | SAny | SNarrowed [] => true
@@ -1285,11 +1307,11 @@ Section Run.
       match v with
       | VTuple vs =>
         forallb (fun '(k, x) =>
-                   (fix first (fs : list (bytes * shape)) : bool :=
+                   (fix last (fs : list (bytes * shape)) (acc : bool) : bool :=
                       match fs with
-                      | [] => false
-                      | (k', t) :: fs' => if bytes_eqb k k' then inhabitsb x t else first fs'
-                      end) fs) vs
+                      | [] => acc
+                      | (k', t) :: fs' => last fs' (if bytes_eqb k k' then inhabitsb x t else acc)
+                      end) fs false) vs
       | _ => false end
     | SFunc _ _ _ => match v with VFunc _ _ _ => true | _ => false end
     | SModule _ _ => match v with VModule _ _ _ => true | _ => false end
@@ -1324,33 +1346,104 @@ Definition is_cmp_fo (o : op) : bool :=
 Definition is_arith (o : op) : bool :=
   match o with Add | Sub | Mul | Div | Mod => true | _ => false end.
 
-(* fragment_fo, relative to the symbol table the expression is checked in:
-   literals, let-bound names, grouping, TRACE, not, comparisons (== != < > <= >= is), arithmetic on operands whose derived
-   shape is primitive, tuple literals without repeated field, list literals, selection of a field by
-   literal name, casts, ranges, format expressions.
-   Outside (see the Known classes in Shape_Lemmas.v): `+` on lists, && and ||, `in`, list indexing, copy,
-   select, calls, map/filter/reduce, modules, imports. *)
-Fixpoint fragment_fo (st : symtab) (e : expr) : bool :=
-  match e with
-  | ENull | EBool _ | EInt _ | EFloat _ | EStr _ => true
-  | ESym x => negb (bytes_eqb x (b "self")) && negb (bytes_eqb x (b "env"))
-  | EGroup e1 | ETrace e1 | ENot e1 => fragment_fo st e1
-  | ETuple fs =>
-    (fix nodup (l : list (bytes * expr)) : bool :=
-       match l with
-       | [] => true
-       | (k, _) :: l' => negb (existsb (fun '(k', _) => bytes_eqb k k') l') && nodup l'
-       end) fs
-    && forallb (fun '(_, e1) => fragment_fo st e1) fs
-  | EList es => forallb (fragment_fo st) es
-  | EBin DOT l (ESym _) | EBin DOT l (EStr _) => fragment_fo st l
-  | EBin o l r =>
-    fragment_fo st l && fragment_fo st r
-    && (is_cmp_fo o || (is_arith o && is_prim (derive st l) && is_prim (derive st r)))
-  | ECast _ _ | ERange _ _ _ | EFormatL _ _ | EFormatS _ _ => true
+(* hole-free shapes: no Hole, ConstraintRef, Module or Import; a Func shape is opaque *)
+Fixpoint hfb (s : shape) : bool :=
+  match s with
+  | SBool | SInt | SFloat | SStr | SAny | SListAny | SErr _ | SFunc _ _ _ => true
+  | STuple fs => forallb (fun '(_, t) => hfb t) fs
+  | SList ts | SNarrowed ts => forallb hfb ts
   | _ => false
   end.
 
+(* data shapes: hole-free and without Func *)
+Fixpoint dsb (s : shape) : bool :=
+  match s with
+  | SBool | SInt | SFloat | SStr | SAny | SListAny | SErr _ => true
+  | STuple fs => forallb (fun '(_, t) => dsb t) fs
+  | SList ts | SNarrowed ts => forallb dsb ts
+  | _ => false
+  end.
+(* [admits p s]: a value of the primitive shape p may have shape s *)
+Fixpoint admits (p s : shape) : bool :=
+  match s with
+  | SHole _ | SAny | SNarrowed [] => true
+  | SNarrowed ts => existsb (admits p) ts
+  | _ => prim_same p s
+  end.
+(* arithmetic: one operand's shape is primitive, the other's is a data shape (possibly a candidate set) *)
+Definition arith_ok (sl sr : shape) : bool := (is_prim sl && dsb sr) || (dsb sl && is_prim sr).
+
+Definition not_cands (s : shape) : bool := match s with SNarrowed _ => false | _ => true end.
+Definition is_tuple_shape (s : shape) : bool := match s with STuple _ => true | _ => false end.
+Definition is_func_lit (e : expr) : bool := match e with EFunc _ _ => true | _ => false end.
+(* filter: a target whose shape says list, string, tuple or "one of several" *)
+Definition filter_target_ok (s : shape) : bool :=
+  match s with SList _ | SListAny | SStr | STuple _ | SNarrowed _ | SAny => true | _ => false end.
+(* map: a tuple, a string or an undetermined target (the result shape is Narrowed Any) *)
+Definition map_target_ok (s : shape) : bool :=
+  match s with STuple _ | SStr | SAny | SNarrowed _ => true | _ => false end.
+
+(* select: every arm shape (and the default's) must really be among the candidates after merging:
+   merge_in_shape drops a shape that is `equivalent` to an earlier one, which is only harmless when the
+   earlier one is the same primitive (Known class N2 otherwise) *)
+Definition sel_ok (types : list shape) (s : shape) : bool :=
+  negb (existsb (fun t => equivalent t s) types) || existsb (fun t => prim_same t s) types.
+Fixpoint sel_ok_all (types : list shape) (ss : list shape) : bool :=
+  match ss with
+  | [] => true
+  | s :: ss' => sel_ok types s && sel_ok_all (merge_in_shape types s) ss'
+  end.
+
+Fixpoint nodup_fields (l : list (bytes * expr)) : bool :=
+  match l with
+  | [] => true
+  | (k, _) :: l' => negb (existsb (fun '(k', _) => bytes_eqb k k') l') && nodup_fields l'
+  end.
+
+(* fragment_fo, relative to the symbol table the expression is checked in.
+     literals; names bound in the table (not self/env); grouping; TRACE;
+     not e           when the derived shape of e is not a candidate set (Known class N3);
+     == != < > <= >= is;
+     + - * / %%      when one operand's derived shape is primitive and the other's is a data shape, e.g. a
+                     candidate set as for l.0 or a select (lists: Known classes K1/K1b/K2);
+     tuple literals without repeated field; list literals;
+     e.name, e."name", e.<int>;
+     e.name(args), e.name{...}   (call / copy through a tuple field; args and overrides are arbitrary);
+     casts, ranges, both format forms (sub-expressions arbitrary);
+     select (v, default) => {...} with every arm and the default in the fragment and sel_ok_all (v arbitrary);
+     filter(f, t)    f in the fragment or a func literal, shape of t list / string / tuple / candidates / Any;
+     map(f, t)       f likewise, shape of t tuple, string, candidates or Any.
+   A func literal itself is allowed as the right side of a let (fragment_prog) and as f above.
+   Outside: && || (K10), `in`, =~, direct calls f(args) (N1, N4), direct copy t{..}, map over lists, reduce,
+   modules, imports. *)
+Definition sym_ok (st : symtab) (x : bytes) : bool :=
+  st_has x st && negb (bytes_eqb x (b "self")) && negb (bytes_eqb x (b "env")).
+Fixpoint fragment_fo (st : symtab) (e : expr) : bool :=
+  match e with
+  | ENull | EBool _ | EInt _ | EFloat _ | EStr _ => true
+  | ESym x => sym_ok st x
+  | EGroup e1 | ETrace e1 => fragment_fo st e1
+  | ENot e1 => fragment_fo st e1 && not_cands (derive st e1)
+  | ETuple fs => nodup_fields fs && forallb (fun '(_, e1) => fragment_fo st e1) fs
+  | EList es => forallb (fragment_fo st) es
+  | EBin DOT l (ESym _) | EBin DOT l (EStr _) | EBin DOT l (EInt _) => fragment_fo st l
+  | EBin DOT l (ECall (ESym _) _) | EBin DOT l (ECall (EStr _) _)
+  | EBin DOT l (ECopy (ESym _) _) | EBin DOT l (ECopy (EStr _) _) => fragment_fo st l
+  | EBin o l r =>
+    fragment_fo st l && fragment_fo st r
+    && (is_cmp_fo o || (is_arith o && arith_ok (derive st l) (derive st r)))
+  | ECast _ _ | ERange _ _ _ | EFormatL _ _ | EFormatS _ _ => true
+  | ESelect _ dflt arms =>
+    forallb (fun '(_, e1) => fragment_fo st e1) arms
+    && match dflt with Some d => fragment_fo st d | None => true end
+    && sel_ok_all [] (map (fun '(_, e1) => derive st e1) arms
+                      ++ match dflt with Some d => [derive st d] | None => [] end)
+  | EFilter fe te =>
+    (fragment_fo st fe || is_func_lit fe) && fragment_fo st te && filter_target_ok (derive st te)
+  | EMap fe te =>
+    (fragment_fo st fe || is_func_lit fe) && fragment_fo st te && map_target_ok (derive st te)
+  | _ => false
+  end.
 
 (* ------------------------------------------------------------------------------------------ *)
 (* An executable float instance for the runner / examples: IEEE-754 binary64 comparison on the  *)
@@ -1390,8 +1483,61 @@ Fixpoint cstmts_of (p : list stmt) : option (list cstmt) :=
 Fixpoint fragment_prog (st : symtab) (p : list stmt) : bool :=
   match p with
   | [] => true
-  | SLet x e :: p' => fragment_fo st e && fragment_prog (st_set x (derive st e) st) p'
+  | SLet x e :: p' => (fragment_fo st e || is_func_lit e) && fragment_prog (st_set x (derive st e) st) p'
   | SExpr e :: p' => fragment_fo st e && fragment_prog st p'
   | _ => false
   end.
+
+(* ------------------------------------------------------------------------------------------ *)
+(* The Known classes of C07 that the current checker still has by design (pinned by the suite):   *)
+(*   K1/K1b/K2  a `+` whose two operands both derive to List(Narrowed ..) shapes whose candidate    *)
+(*              sets differ (as sets, modulo positions);                                            *)
+(*   K10        an `&&` / `||` whose right operand derives to a primitive shape other than Boolean. *)
+(* [known_expr st e] looks at every sub-expression of e (function bodies under the table extended   *)
+(* with their parameters as holes; module bodies and @{..} template expressions are not entered),   *)
+(* deriving operand shapes in the symbol table current at the statement.                            *)
+(* ------------------------------------------------------------------------------------------ *)
+Definition elems_differ (a c : list shape) : bool :=
+  negb (forallb (fun x => existsb (shape_eqb x) c) a && forallb (fun y => existsb (shape_eqb y) a) c).
+Definition known_add (st : symtab) (l r : expr) : bool :=
+  match derive st l, derive st r with
+  | SList a, SList c => elems_differ a c
+  | _, _ => false
+  end.
+(* [wide]: also an `&&` / `||` whose right operand derives to a TypeErr (the operand may never be
+   evaluated: `false && (not 5)`, class N7) *)
+Definition known_andor (wide : bool) (st : symtab) (r : expr) : bool :=
+  match derive st r with SInt | SFloat | SStr => true | SErr _ => wide | _ => false end.
+
+Fixpoint known_expr (wide : bool) (st : symtab) (e : expr) : bool :=
+  match e with
+  | EBin Add l r => known_add st l r || known_expr wide st l || known_expr wide st r
+  | EBin AND l r | EBin OR l r => known_andor wide st r || known_expr wide st l || known_expr wide st r
+  | EBin _ l r => known_expr wide st l || known_expr wide st r
+  | ETuple fs => existsb (fun '(_, e1) => known_expr wide st e1) fs
+  | EList es => existsb (known_expr wide st) es
+  | ENot e1 | EGroup e1 | ECast _ e1 | EFail e1 | ETrace e1 | EConvert _ e1 => known_expr wide st e1
+  | ECopy t fs => known_expr wide st t || existsb (fun '(_, e1) => known_expr wide st e1) fs
+  | ERange a s z =>
+    known_expr wide st a || match s with Some e1 => known_expr wide st e1 | None => false end || known_expr wide st z
+  | EFormatL _ args => existsb (known_expr wide st) args
+  | EFormatS _ a => known_expr wide st a
+  | ECall fe args => known_expr wide st fe || existsb (known_expr wide st) args
+  | EFunc ps body => known_expr wide (fold_left (fun acc p => st_set p (SHole p) acc) ps st) body
+  | ESelect v d arms =>
+    known_expr wide st v || match d with Some e1 => known_expr wide st e1 | None => false end
+    || existsb (fun '(_, e1) => known_expr wide st e1) arms
+  | EMap a c | EFilter a c => known_expr wide st a || known_expr wide st c
+  | EReduce a c d => known_expr wide st a || known_expr wide st c || known_expr wide st d
+  | _ => false
+  end.
+
+Fixpoint known_stmts (wide : bool) (st : symtab) (p : list stmt) : bool :=
+  match p with
+  | [] => false
+  | SLet x e :: p' => known_expr wide st e || known_stmts wide (st_set x (derive st e) st) p'
+  | SExpr e :: p' | SAssert e :: p' | SOut _ e :: p' => known_expr wide st e || known_stmts wide st p'
+  end.
+Definition known_c07 (p : list stmt) : bool := known_stmts false [] p.
+Definition known_c07_wide (p : list stmt) : bool := known_stmts true [] p.
 
